@@ -138,6 +138,7 @@ class Check(PropertyCheck):
                 bad_kinds.add(bad[3])
                 n_bad += 1
 
+        reset_at = rng.randint(1, max(1, gen.num_ops(jobs) - 1)) if rng.random() < 0.35 else None
         while not tr.done():
             if rng.random() < 0.6:
                 inject()
@@ -145,6 +146,19 @@ class Check(PropertyCheck):
             tr.take(j)
             n_acc += 1
             lines.append(f"disp {j} {p} {m}")
+            if reset_at is not None and n_acc == reset_at:
+                # a reset in the middle of an episode: what was next before the reset is not next any more
+                stale = [(k, tr.idx[k]) for k in range(len(jobs)) if 0 < tr.idx[k] < len(jobs[k])]
+                lines.append("reset")
+                tr.reset()
+                reset_at = None
+                for k, pos in stale[:2]:
+                    lines.extend(probe)
+                    lines.append("mark injected stale-next-after-reset")
+                    lines.append(f"disp {k} {pos} {jobs[k][pos][0][0]}")
+                    lines.extend(probe)
+                    bad_kinds.add("stale-next-after-reset")
+                    n_bad += 1
         inject()
         lines.extend(probe)
         meta = {"family": family, "filter": "none" if f is None else "+".join(f) or "empty-composite",
